@@ -121,6 +121,9 @@ func (m *Monitor) onEvent(ev Event) {
 					}
 					if m.dead[ref.Scope] { // Scope is the creating bind's lhs-change id
 						m.dead[id] = true
+						if m.deadByReentry[ref.Scope] {
+							m.deadByReentry[id] = true
+						}
 						changed = true
 					}
 				}
